@@ -328,6 +328,11 @@ def run_C19(ctx):
     _forth_phase(ctx, "recursion-limit",
                  '{Lit(0), Lit(1), W("dup"), W("1-"), [k |-> "call"], [k |-> "inc"]}', '{"def", "if", "do", "until"}',
                  4 if q else 5, recmax=3, fuel=80, inp="<<1>>")
+    # variable-length integers: up to five bytes, values at the edge of 32 bits (the two machine widths must agree)
+    for tag, inp in (("a", "<<254, 255, 255, 255, 15, 5>>"), ("b", "<<255, 255, 255, 255, 15, 128, 1>>"), ("c", "<<255, 255, 255, 255, 7, 172, 2, 255>>")):
+        _forth_phase(ctx, "varint-zigzag-" + tag,
+                     '{[k |-> "read", ty |-> "varint"], [k |-> "read", ty |-> "zigzag"], [k |-> "read", ty |-> "B"], [k |-> "in", w |-> "pos"], '
+                     'W("dup"), [k |-> "write"]}', "{}", 3 if q else 4, stackmax=4, inp=inp)
     # `exit`: leaving the user-defined word from inside its ifs and loops, called from inside the caller's loops
     _forth_phase(ctx, "exit-from-words", '{Lit(0), Lit(1), Lit(2), W("i"), W("exit")}', '{"if", "do", "def"}', 6 if q else 7, stackmax=8, fuel=80, inp="<<1>>")
     # nested loops, exhaustively over a tiny vocabulary
@@ -354,7 +359,7 @@ def _s(text):
 JSON_TOKENS = ('{[t |-> "["], [t |-> "]"], [t |-> "{"], [t |-> "}"], [t |-> ","], [t |-> ":"], [t |-> "null"], [t |-> "true"], '
                '[t |-> "int", x |-> 1], [t |-> "real", n |-> 5, d |-> 2], %s, %s, [t |-> "garbage", text |-> "tru"]}' % (_s("a"), _s("b")))
 JSON_TOKENS_MARKERS = ('{[t |-> "["], [t |-> "]"], [t |-> ","], [t |-> "int", x |-> 1], %s}'
-                       % ", ".join(_s(x) for x in ("nan", "nano", "inf", "info", "-inf", "-infra", "a")))
+                       % ", ".join(_s(x) for x in ("nan", "nano", "na", "", "inf", "info", "-inf", "-infra", "-", "a")))    # longer than / proper prefixes of the markers
 
 
 JSON_TOKENS_BIG = ('{[t |-> "["], [t |-> "]"], [t |-> ","], [t |-> "{"], [t |-> "}"], [t |-> ":"], %s, [t |-> "int", x |-> -1], [t |-> "real", n |-> 5, d |-> 2]} \\cup '
@@ -406,7 +411,7 @@ def run_C10(ctx):
                             SliceTuples="RandomSubset(%d, %s)" % (6 if q else 20, FIELD_TUPLES))
     ctx.tlc_phase("fields", "Session", consts, invariants=["Refines", "Closed"], constraint="SmallEnough", seed_tlc=True,
                   require_actions=["SliceOp", "SetFieldOp", "WrapRecord", "ToListOp"])
-    ctx.pychain_phase("python-chains-code-to-spec", (4000 if ctx.quick() else 60000), 5, ops={"zip", "field", "withfield"})
+    ctx.pychain_phase("python-chains-code-to-spec", (4000 if ctx.quick() else 60000), 5, ops={"zip", "field", "withfield", "withfield_b"})
     return ctx.finish(assumptions=["ak.zip/unzip/with_field broadcasting are Python-layer functions (L2); here the C++ API below them: "
                                    "getitem_field(s), field projections inside slices, setitem_field",
                                    "index-like keys ('0') on named records and projections through unions are Unspec"])
